@@ -145,6 +145,10 @@ ChooseRequest ==
              \/ \E k \in keys \cup other, t \in few : req' = [pairs |-> <<Pair(k, t)>>, seg |-> <<>>]         \* other spellings / other keys
              \/ \E k1 \in keys, k2 \in keys \cup other, t1 \in few, t2 \in few :                                \* two occurrences
                     (Thorough \/ k1 = d.name \/ k2 = d.name) /\ req' = [pairs |-> <<Pair(k1, t1), Pair(k2, t2)>>, seg |-> <<>>]
+             \/ /\ Thorough                                                                                    \* every text first / last of two
+                /\ \E t \in texts, t2 \in {good, <<>>} :
+                     \/ req' = [pairs |-> <<Pair(d.name, t), Pair(d.name, t2)>>, seg |-> <<>>]
+                     \/ req' = [pairs |-> <<Pair(d.name, t2), Pair(d.name, t)>>, seg |-> <<>>]
   /\ phase' = "done" /\ UNCHANGED d
 
 Next == ChooseKind \/ ChooseFlags \/ ChooseRequest
